@@ -8,8 +8,11 @@ PARALLEL = True
 BATCH = 60
 BUDGET_S = {'quick': 80, 'thorough': 1200}
 RULE = ('1..4 probes with different channel counts (>= 2) and template counts (>= 2), permuted channel '
-        'maps, non-negative coordinates (incl. probes whose channels share one x, and fractional coordinates k/4, handed to '
-        'the model exactly in quarter units), index tables (incl. tables of different widths across probes: min(3, n) wide) of '
+        'maps, non-negative coordinates (incl. probes whose channels share one x, fractional coordinates k/4, handed to '
+        'the model exactly in quarter units, and - every third case - coordinates in FINE UNITS (nm instead of um: each site '
+        'off the nominal grid by a few units) of every magnitude up to the largest at which the stored dtype and the '
+        'arithmetic of the merge are exact: 2**19 for single precision files, 2**16 / 2**31 / 2**32 for uint16 / int32 / '
+        'uint32 files, 2**47 for int64 / float64 files - integer files beyond 2**24 need every bit of a double), index tables (incl. tables of different widths across probes: min(3, n) wide) of '
         'int32/int64/uint32, whitening / inverse whitening / similarity matrices in all, some or none of the probes '
         '(written or skipped as Lean mergeOptional decides); every template cell is a distinct token. One case = one '
         'real Merger.merge(), also run through the Lean file-system model of the whole merge; every fourth case uses '
@@ -86,7 +89,8 @@ def judge(case, impl_res, ans):
         dx = {round(b[0] - a[0], 6) for a, b in zip(p['channel_positions'], blk)}
         dy = {round(b[1] - a[1], 6) for a, b in zip(p['channel_positions'], blk)}
         if len(dx) != 1 or dy != {0.0}:
-            return 'SPEC: probe %d geometry is not kept up to a translation along x' % k
+            return 'SPEC: probe %d geometry is not kept up to a translation along x (x moved by %s, y moved by %s)' % (
+                k, sorted(dx)[:4], sorted(dy)[:4])
         blocks.append(blk)
     allpos = [tuple(x) for b in blocks for x in b]
     for a in range(len(blocks)):
@@ -150,6 +154,40 @@ def judge(case, impl_res, ans):
     return F.fs_compare(case, ok, ans.get('second') or {'err': 'no answer'}, F.C12_FILES)
 
 
+# Largest input coordinate (in the unit of the file) for which every value of a merge of <= 4 probes is exact: it is
+# stored exactly in the file's dtype, and the translated x (offsets 2*max - min accumulate: at most 15 times the largest
+# input x for the fourth probe, 30 times for the offset computed after it) is exact in the arithmetic the merger uses for
+# that dtype - single precision for float32 files (24 bits), double precision otherwise (53 bits, two of them kept for
+# the quarter units of the model).
+COORD_LIMIT = dict(float32=2 ** 24 // 32, float64=2 ** 53 // 64, int64=2 ** 53 // 64, int32=2 ** 31 - 1,
+                   uint32=2 ** 32 - 1, uint16=2 ** 16 - 1)
+
+
+def fine_units(case, rng):
+    """The probes' coordinates re-expressed in a finer unit (u units per um, u drawn so that the largest coordinate takes
+    any number of bits up to COORD_LIMIT of the stored dtype), every site off the nominal grid by a few units: the
+    geometry is the same picture, the numbers need up to every bit of the mantissa. Probes whose channels share one x
+    still do."""
+    P = case['probes']
+    lim = COORD_LIMIT[P[0]['dtypes'].get('channel_positions', 'float64')]
+    top = int(max(v for p in P for xy in p['channel_positions'] for v in xy)) + 1
+    nb = rng.randrange(min(17, lim.bit_length() - 3), lim.bit_length() + 1)       # the largest coordinate has ~nb bits
+    u = rng.randrange(2 ** (nb - 1), min(2 ** nb, lim + 1)) // top
+    if u < 2 or any(v != int(v) for p in P for xy in p['channel_positions'] for v in xy):
+        return case
+    for p in P:
+        one_x = len({x for x, y in p['channel_positions']}) == 1
+        jx = rng.randrange(min(u, 50))
+        p['channel_positions'] = [[float(int(x) * u + (jx if one_x else rng.randrange(min(u, 50)))),
+                                   float(int(y) * u + rng.randrange(min(u, 50)))] for x, y in p['channel_positions']]
+    case['fine_units'] = u
+    return case
+
+
+def coord_bits(case):
+    return max(int(abs(v)).bit_length() for p in case['probes'] for xy in p['channel_positions'] for v in xy)
+
+
 def nontrivial(case):
     return len(case['probes']) >= 2
 
@@ -165,6 +203,14 @@ def tally(rep, case, impl_res, ans):
         rep.count('index tables of different widths across probes')
     if case.get('fractional_positions'):
         rep.count('fractional probe coordinates (multiples of 1/4)')
+    if case.get('fine_units'):
+        rep.count('coordinates in fine units (a site = grid * u + a few units)')
+    nb = coord_bits(case)
+    rep.count('largest coordinate: ' + ('<= 8 bits' if nb <= 8 else '9..16 bits' if nb <= 16 else '17..24 bits' if nb <= 24
+                                         else '25..32 bits (beyond single precision)' if nb <= 32
+                                         else '33..47 bits (beyond single precision)'))
+    if nb > 24 and 'int' in (case['probes'][0].get('dtypes') or {}).get('channel_positions', 'float64'):
+        rep.count('integer-stored coordinates that need more than the 24 bits of single precision')
     rep.count('positions_dtype:' + (case['probes'][0].get('dtypes') or {}).get('channel_positions', 'float64'))
     P = case['probes']
     if len({len(p['channel_map']) for p in P}) > 1:
@@ -258,6 +304,8 @@ def gen(tier, rng):
             for p in case['probes']:
                 dx = rng.randrange(4) / 4.
                 p['channel_positions'] = [[x + dx, y + rng.randrange(4) / 4.] for x, y in p['channel_positions']]
+        if i % 3 == 2:
+            fine_units(case, rng)
         if i % 6 in (2, 5):
             # inverse whitening matrices stored in all (block-diagonal merge) or only some probes (skipped by the
             # merger, computed by the final load); tokens: the whitening tokens + 500000
